@@ -93,7 +93,8 @@ CLAIMS = {
                  "norm of absolute values and are never negative. "
                  "BOUNDED: all strategies with reference solution: reported error == normalised deviation in the chosen norm, point count == distinct evaluations, no negative errors."),
     "C14": bounded("BOUNDED (deciding): stop-and-continue at every interruption index, save/restore round trip (dill) vs an uninterrupted run. PROVED support: the driver loop is "
-                   "re-entrant for an arbitrary existing history (C13 contract)."),
+                   "re-entrant for an arbitrary existing history (C13 contract); the selection kernel a resumed run uses is the exact comparison benefit >= tolerance (any container size), "
+                   "which is invariant under the common scaling of the accumulated benefits that a re-evaluation after a resume produces (SMT lemma)."),
     "C15": mixed("PROVED for every grid size/sorted grid with the distribution abstracted by its interval moments (A-DIST): weighted trapezoidal weights are non-negative and equal "
                  "the per-interval moment formula, and (ghost Sum through the accumulation loop, lemmas sum-update / total-mass) add up to the probability of [x_0, x_{n-1}], i.e. to 1 "
                  "when the grid spans the support and interval probabilities are additive (A-DIST-ADD); lemmas: uniform => trapezoidal/(b-a); E[cf+e]=cE[f]+e, Var[cf+e]=c^2 Var[f], constant model; variance never negative (1..3 outputs); get_middle_weighted with an abstract strictly increasing cdf and its inverse ppf returns a point strictly inside the interval "
